@@ -10,12 +10,16 @@ use serde_json::{json, Value as J};
 use std::cell::RefCell;
 use std::collections::{BTreeMap, BTreeSet};
 use std::io::Write;
-use std::path::{Path, PathBuf};
+use std::path::PathBuf;
 use std::time::Instant;
 
 pub use tape::{fingerprint, hex, mix, unhex, SplitMix, Tape};
 
-pub const VERIF_ROOT: &str = "/verif";
+/// Root of the verification tree (evidence, work, replays, known findings). Overridable so that
+/// scratch copies used for sensitivity runs do not write into /verif.
+pub fn verif_root() -> PathBuf {
+    PathBuf::from(std::env::var("VERIF_ROOT").unwrap_or_else(|_| "/verif".to_string()))
+}
 
 // ---------------------------------------------------------------------------------------------
 // determinism shim
@@ -246,7 +250,7 @@ pub struct KnownFinding {
 }
 
 pub fn load_known_findings() -> Vec<KnownFinding> {
-    let p = Path::new(VERIF_ROOT).join("known_findings.json");
+    let p = verif_root().join("known_findings.json");
     let Ok(text) = std::fs::read_to_string(&p) else {
         return vec![];
     };
@@ -300,11 +304,11 @@ pub struct Ctx {
 }
 
 fn work_dir(id: &str) -> PathBuf {
-    Path::new(VERIF_ROOT).join("work").join(id)
+    verif_root().join("work").join(id)
 }
 
 fn replay_dir(id: &str) -> PathBuf {
-    Path::new(VERIF_ROOT).join("replays").join(id)
+    verif_root().join("replays").join(id)
 }
 
 pub fn write_replay(def: &CheckDef, class: &str, tape: &[u8], f: &Failure) -> String {
@@ -924,7 +928,7 @@ fn parent_main(def: &'static CheckDef, args: &Args) -> ! {
         "violation_signatures": violations.iter().map(|v| v.signature.clone()).collect::<Vec<_>>(),
         "generator_unhealthy": unhealthy,
     });
-    let evdir = Path::new(VERIF_ROOT).join("evidence");
+    let evdir = verif_root().join("evidence");
     let _ = std::fs::create_dir_all(&evdir);
     let evpath = evdir.join(format!("{}.json", def.id));
     if infra_trouble && violations.is_empty() {
